@@ -62,12 +62,14 @@ pub fn run(case: &Value, em: &mut Emitter) {
 
 /// a well-formed index: sections at strictly increasing offsets whose tokens stay before the next offset
 fn gen_index(rng: &mut Rng, size: usize, depth: usize) -> (Value, i64) {
-    let nsec = 1 + rng.below(if size > 4 { 12 } else { 4 });
+    // now and then MANY sections (18..80), each small
+    let many = depth == 0 && rng.chance(1, 15);
+    let nsec = if many { 18 + rng.below(62) } else { 1 + rng.below(if size > 4 { 12 } else { 4 }) };
     let mut line = 0i64;
     let mut secs = vec![];
     let pool = ["a.js", "b.js", "lib/c.js", "a.js"];
     for _ in 0..nsec {
-        let offc = if rng.chance(1, 2) { 0 } else { rng.range(1, 9) };
+        let offc = if rng.chance(1, 2) { 0 } else if rng.chance(1, 8) { vlq_class(rng, 4) } else { rng.range(1, 9) };
         let off_line = line;
         let mut s = json!({"off": [off_line, offc]});
         let height: i64;
@@ -75,20 +77,23 @@ fn gen_index(rng: &mut Rng, size: usize, depth: usize) -> (Value, i64) {
             0 => { s["url"] = json!(["http://x/s.map"]); height = 1; }                         // unresolved section
             1 if depth > 0 => { let (d, h) = gen_index(rng, size.min(3), depth - 1); s["map"] = json!([d]); height = h + 1; }
             k => {
-                let nsrc = if rng.chance(1, 10) { 60 + rng.below(20) } else { 1 + rng.below(3) };
+                let nsrc = if !many && rng.chance(1, 10) { 60 + rng.below(20) } else { 1 + rng.below(3) };
+                let nnm = if !many && rng.chance(1, 10) { 60 + rng.below(20) } else { rng.below(3) };
                 let nl = 1 + rng.below(4) as i64;
                 let mut toks = vec![];
                 for l in 0..nl {
                     let mut c = 0i64;
-                    for _ in 0..rng.below(if size > 4 { 30 } else { 4 }) {
-                        c += rng.range(if toks.is_empty() && l == 0 { 0 } else { 1 }, 6);
+                    for _ in 0..rng.below(if many { 3 } else if size > 4 { 30 } else { 4 }) {
+                        c += if rng.chance(1, 12) { 1 + vlq_class(rng, 4) } else { rng.range(if toks.is_empty() && l == 0 { 0 } else { 1 }, 6) };
                         let src = if rng.chance(1, 8) { -1 } else { rng.below(nsrc) as i64 };
-                        toks.push(json!([l, c, src, rng.range(0, 20), rng.range(0, 40), -1, if src >= 0 && rng.chance(1, 6) { 1 } else { 0 }]));
+                        let nm = if src >= 0 && nnm > 0 && rng.chance(1, 2) { rng.below(nnm) as i64 } else { -1 };
+                        toks.push(json!([l, c, src, rng.range(0, 20), rng.range(0, 40), nm, if src >= 0 && rng.chance(1, 6) { 1 } else { 0 }]));
                     }
                 }
                 let mut d = json!({"version": [3],
                     "sources": [(0..nsrc).map(|i| if nsrc > 10 { json!([cps(&format!("big/src{}.js", i))]) } else { json!([cps(*rng.pick(&pool))]) }).collect::<Vec<_>>()],
-                    "names": [[]], "mappings": [own_mappings(&toks)]});
+                    "names": [(0..nnm).map(|i| if nnm > 10 { json!({"s": format!("name{}", i)}) } else { json!({"s": *rng.pick(&["f", "g", "f", ""])}) }).collect::<Vec<_>>()],
+                    "mappings": [own_mappings(&toks)]});
                 if let Some(r) = own_range(&toks) { d["range"] = json!([r]); }
                 if rng.chance(1, 2) { d["contents"] = json!([(0..nsrc).map(|i| if rng.chance(1, 3) { json!([]) } else if rng.chance(1, 4) { json!([""]) } else { json!([format!("content {} of section", i)]) }).collect::<Vec<_>>()]); }
                 if rng.chance(1, 3) || nsrc > 10 { d["ignore"] = json!([[rng.below(nsrc), nsrc - 1, (nsrc / 2 + 30).min(nsrc - 1)]]); }
@@ -98,7 +103,7 @@ fn gen_index(rng: &mut Rng, size: usize, depth: usize) -> (Value, i64) {
             }
         }
         secs.push(s);
-        line = off_line + height + rng.range(0, 2);
+        line = off_line + height + if rng.chance(1, 12) { 64 * rng.range(1, 3) } else { rng.range(0, 2) };
     }
     (json!({"version": [3], "file": [{"s": "bundle.js"}], "sections": [secs]}), line)
 }
@@ -106,6 +111,12 @@ fn gen_index(rng: &mut Rng, size: usize, depth: usize) -> (Value, i64) {
 pub fn gen(rng: &mut Rng, size: usize) -> Value {
     let depth = if rng.chance(1, 3) { 2 } else { 0 };
     let (doc, lines) = gen_index(rng, size, depth);
-    let qs: Vec<Value> = (0..40).map(|_| json!([rng.range(0, lines + 1), rng.range(0, 30)])).collect();
+    // queries: anywhere, and around every section start (left / at / right of its column offset, the lines around it)
+    let mut qs: Vec<Value> = (0..30).map(|_| json!([rng.range(0, lines + 1), if rng.chance(1, 10) { vlq_class(rng, 4) } else { rng.range(0, 30) }])).collect();
+    let offs: Vec<(i64, i64)> = doc["sections"][0].as_array().unwrap().iter().map(|s| (s["off"][0].as_i64().unwrap(), s["off"][1].as_i64().unwrap())).collect();
+    for _ in 0..14 {
+        let (l, c) = *rng.pick(&offs);
+        qs.push(json!([(l + rng.range(-1, 1)).max(0), (c + rng.range(-1, 2)).max(0)]));
+    }
     json!({"op": "index", "doc": doc, "qs": qs})
 }
